@@ -318,8 +318,11 @@ def build(tier):
     targets += linear_spec.targets()
     import predict_spec
     targets += predict_spec.targets(tier)
+    vcs = []
+    if tier == 'thorough':
+        vcs += predict_spec.c13_stats_vcs()
     return {
-        'targets': targets, 'vcs': [],
+        'targets': targets, 'vcs': vcs,
         'decided': ['early-stopping monitor transition = specification, for every observation and prior state; constructor (round 0, value +max, given snapshot) and round() / value() / values() accessors',
                     'gboost::result_t: constructor allocates a statistics row for every round 0..max_rounds, no learners; update(round, ..) stays inside m_statistics; done(round) keeps exactly `round` learners and round + 1 rows',
                     '::fit round loop (src/gboost/model.cpp): #learners == round at the loop head; the monitor is consulted once before the first round and once per appended learner with the CURRENT learner list and the configured epsilon / patience, never after it has stopped; '
